@@ -267,13 +267,20 @@ def connMaxCount (first last : ArgVal) : Int :=
     | some f => f
     | none => 0
 
-/-- `defaultConnectionCost`: resolver cost 1, the context carries the max edge count. -/
-def connectionCost (first last : ArgVal) : Int → FieldCost Int :=
-  fun _ => { ctx := some (connMaxCount first last), resolver := 1, multiplier := 0 }
+/-- The cost context as far as the cost functions in play can see it: the value under the
+    application's own key and the value under pagination.go's `maxEdgeCountContextKey`.
+    `context.WithValue(parent, key, v)` replaces one and **keeps the other**. -/
+abbrev Ctx := Int × Int
+
+/-- `defaultConnectionCost`: resolver cost 1; the context handed down is the context the connection
+    field *received* with the max edge count added (`context.WithValue(ctx.Context, …)`): whatever an
+    ancestor's cost function put there stays visible below the connection. -/
+def connectionCost (first last : ArgVal) : Ctx → FieldCost Ctx :=
+  fun k => { ctx := some (k.1, connMaxCount first last), resolver := 1, multiplier := 0 }
 
 /-- The `edges` field (pagination.go:434-442): resolver cost 0, multiplier = the context's max edge count. -/
-def edgesCost : Int → FieldCost Int :=
-  fun k => { ctx := none, resolver := 0, multiplier := k }
+def edgesCost : Ctx → FieldCost Ctx :=
+  fun k => { ctx := none, resolver := 0, multiplier := k.2 }
 
 /-- The connection resolver's own reading of the arguments (pagination.go `ret.Resolve`, first lines):
     the number of edges it may return (`limit - 1`), or `none` when it answers with an error (negative
